@@ -19,7 +19,7 @@ theorem readVt_spec {c : Ctx} {M : Nat} (P : Placed c M) (td : TD) (id : Nat) (h
     (∀ a ∈ (readVt c td.table id).2, Safe c a) ∧
     readVtEntry c td id = .ok (readVt c td.table id).1 := by
   have hvo : w16 ((id + 2) * 2) = (id + 2) * 2 := by unfold w16; omega
-  have h2m : 2 ∣ M := Nat.dvd_trans (by decide : 2 ∣ 4) P.m4
+  have h2m : 2 ∣ 4 := by decide
   unfold readVt readVtEntry
   simp only [inv.vt, hvo, ← inv.vsz]
   have := inv.vin; have := inv.tab4; have := inv.taba; have := inv.vta; have := inv.vge; have := inv.vev
@@ -105,18 +105,12 @@ theorem verifyField_spec {c : Ctx} {M : Nat} (P : Placed c M) (td : TD) (id : Na
     simp only [decide_eq_true_eq] at g1 g2
     have := inv.tin
     refine ⟨hz, by show td.table + (readVt c td.table id).1 + size ≤ c.n; omega, ?_⟩
-    rw [w32_mod (P.pow hal)] at g2
-    -- (vte + table + w32 A) % align = 0 → (A + (table + vte)) % align = 0
-    have hA : c.A % align = 0 := P.al hal
-    have hw : w32 c.A % align = 0 := by rw [w32_mod (P.pow hal)]; exact hA
-    have h1 : ((readVt c td.table id).1 + td.table) % align = 0 := by
-      have hd1 : align ∣ (readVt c td.table id).1 + td.table + w32 c.A := Nat.dvd_of_mod_eq_zero g2
-      have hd2 : align ∣ w32 c.A := Nat.dvd_of_mod_eq_zero hw
-      exact Nat.mod_eq_zero_of_dvd ((Nat.dvd_add_left hd2).mp hd1)
+    -- (vte + table + w32 A) % align = 0 is the alignment of the absolute address
+    rw [w32_mod (P.pow hal), abs_mod' (P.pow hal)] at g2
     have e : td.table + (readVt c td.table id).1 = (readVt c td.table id).1 + td.table := by omega
     show (c.A + (td.table + (readVt c td.table id).1)) % align = 0
     rw [e]
-    exact add_mod_zero hA h1
+    exact g2
 
 /-- the header part of `verify_table` establishes the descriptor invariant -/
 theorem verifyTable_header {c : Ctx} {M : Nat} (P : Placed c M) (S : Schema) (fuel base offset : Nat) (ttl : Int) (t : Nat)
